@@ -4,6 +4,7 @@
 D=$(realpath "$1"); W=$(mktemp -d /tmp/confirm-XXXXXX); rmdir "$W"
 git -C /repo worktree add -q --detach "$W" HEAD || exit 3
 cd "$W" || exit 3
+export PYTHONPATH="$W"
 if ! git apply "$D/patch.diff"; then echo "PATCH-DOES-NOT-APPLY"; cd /; git -C /repo worktree remove --force "$W"; exit 3; fi
 /venv/bin/python "$D/demo.py" >/dev/null 2>&1; WITH=$?
 SUITE=$(/venv/bin/python -m pytest -q -p no:cacheprovider --timeout=900 -n ${CONFIRM_NPROC:-8} --deselect tests/dialects/test_universe.py::test_multiverse --deselect tests/xdsl_tblgen/test_tblgen.py::test_run_tblgen_to_py 2>&1 | tail -1)
